@@ -49,10 +49,18 @@ const SHAPE: u64 = {
 proof! {
 	[hash_mix, zeroize, sort] fn block_lock_heights() {
 		env::set_chain_type(grin_core::global::ChainTypes::Mainnet);
+		// the NRD feature flag only gates verify_no_nrd_duplicates (not this rule); with it off the
+		// query is as cheap as the plain shapes (with it on: > 660 s)
 		env::set_nrd_enabled(false);
 		let height: u64 = nd::any();
 		let mk = |bit: u64, tagbyte: u8| -> (TxKernel, Option<u64>) {
-			if SHAPE >> bit & 1 == 1 {
+			// shapes 4 / 5: kernel 0 / kernel 1 is an NRD kernel (relative lock: nothing for this
+			// rule to check, and it must not stop the scan), the other one is height-locked
+			if (SHAPE == 4 && bit == 0) || (SHAPE == 5 && bit == 1) {
+				let rh: u16 = nd::any();
+				nd::assume(rh >= 1 && rh <= 10080);
+				(kernel(KernelFeatures::NoRecentDuplicate { fee: fee(1), relative_height: NRDRelativeHeight::new(rh as u64).unwrap() }, tagbyte), None)
+			} else if SHAPE >= 4 || SHAPE >> bit & 1 == 1 {
 				let lh: u64 = nd::any();
 				(kernel(KernelFeatures::HeightLocked { fee: fee(1), lock_height: lh }, tagbyte), Some(lh))
 			} else {
